@@ -1172,6 +1172,18 @@ def _check_subs(run, repo, world):
                 elif isinstance(n, ast.AnnAssign) and unparse(
                         n.target) == "self." + attr and n.value is not None:
                     inits.append(n.value)
+        if not inits and attr in cls_.attrs:
+            # one container in the class body instead of one per object:
+            # every registry of the class shares its subscribers
+            run.ob("R-SUBS", "%s.%s#one-registry-per-object" % (
+                cls_.qname, attr), False,
+                "%s.%s is a class-level container and no method gives the "
+                "object one of its own: all registries of the class (bus "
+                "traffic and connection status, every driver object) share "
+                "their subscribers, so a report reaches callbacks that did "
+                "not subscribe to it" % (cls_.qname, attr),
+                where(m_, cls_.node))
+            continue
         if not inits:
             raise AnalysisError("registry %s.%s is never initialised"
                                 % (cls_.qname, attr))
@@ -1271,6 +1283,26 @@ def _check_subs(run, repo, world):
                    [unparse(p_.expr, 50) if p_.kind == "return" and
                     p_.expr is not None else p_.kind for p_ in ps_ or []],
                    [t for _, t in st_]), where(smod, f_))
+        # distribute() hands every frame to every child with put_nowait: a
+        # child queue with a bound raises QueueFull out of the receive path
+        # once its reader lags, and the subscribers behind it lose the frame
+        bounded = []
+        for p_ in ps_ or []:
+            e_ = p_.expr if p_.kind == "return" else None
+            if isinstance(e_, ast.Call):
+                extra = list(e_.args[1:]) + [k.value for k in e_.keywords
+                                             if k.arg == "maxsize" or
+                                             k.arg is None]
+                for x_ in extra:
+                    if not (isinstance(x_, ast.Constant) and x_.value == 0):
+                        bounded.append(unparse(x_, 40))
+        run.ob("R-SUBS", "%s.new_dali_rx_queue#unbounded" % k_.qname,
+               not bounded,
+               "the subscriber queue is built with a bound (%s): the frame "
+               "that does not fit raises QueueFull out of data_received, "
+               "the subscribers after this one never get it and the "
+               "receiver is left in the middle of a message" % bounded,
+               where(smod, f_))
     run.floor("new_dali_rx_queue implementations", n_new, 2)
     add = dq.methods["add_handler"][1]
     dele = dq.methods["del_handler"][1]
